@@ -6,3 +6,7 @@ add("C02","exploration",
     "Held on every (prefix x stop mode x cache x pool mode) case and every hand-over of a generated workload: the mock's own session state at the first message of the next client is clean and that client's probe gets exactly its own reply.",
     "Trusted: mock session-state semantics (GUC transactionality, COPY sub-protocol, prepared statements) follow PostgreSQL as documented in DESIGN 2.2; SET inside a transaction block is out of the property's scope.",
     "runtime monitoring: state snapshot at hand-over on mock backend + probe client", "DESIGN.md 5 C02")
+add("C03","exploration",
+    "Held on every request produced: thousands of requests of 14 generated kinds, about 1 GB of bytes compared per quick run, byte equality in both directions per request with random write segmentation on both sides.",
+    "Trusted: the harness's own framing parser and the mock's per-request grouping; caching/plugins/custom commands are off so the permitted-difference set is empty; TLS dimensions not exercised.",
+    "runtime monitoring: differential byte comparison at client and mock boundaries", "DESIGN.md 5 C03")
